@@ -472,6 +472,16 @@ def gen_world(rng, family):
         classes = [c for c in classes if c[0] != "unix"]
     inodes = rng.sample(range(1, 99999), nsock + 3) if rng.random() < 0.8 else rng.sample(range(1, 2**32), nsock + 3)
     socks = [gen_sock(rng, rng.choice(classes), inodes[i]) for i in range(nsock)]
+    if family == "ownerless":
+        # the kernel prints every socket that has no struct socket any more (TIME_WAIT, SYN_RECV request socks,
+        # orphaned FIN_WAIT1/2, CLOSING, LAST_ACK) with inode 0: several lines of one file share inode 0 and
+        # nobody holds `socket:[0]`; each of them is a socket of its own and must be reported
+        inet = [c for c in classes if c[0] != "unix"]
+        for _ in range(rng.randrange(2, 6)):
+            t = gen_sock(rng, rng.choice(inet) if rng.random() < 0.3 else inet[0], 0)
+            if t["typ"] == 1:
+                t["state"] = rng.choice([6, 6, 6, 3, 4, 5, 9, 11])
+            socks.insert(rng.randrange(len(socks) + 1), t)
     if family == "twins" and socks:
         # indistinguishable sockets (same class/addresses, different inode): rows collapse only when owner-less
         for _ in range(rng.randrange(1, 3)):
@@ -489,6 +499,8 @@ def gen_world(rng, family):
     if pids:
         for s in socks:
             k = rng.choice([0, 0, 1, 1, 1, 2, 2, 3]) if family != "shared" else rng.choice([2, 3, 4])
+            if s["inode"] == 0:
+                k = 0                                               # nobody can hold `socket:[0]`
             for _ in range(k):
                 p = rng.choice(pids)
                 fds[p][new_fd(p)] = {"s": s["inode"]}
@@ -558,6 +570,10 @@ def exhaustive_world():
             add(cls, holders)
     for st in range(1, 12):
         add(("inet4", 1), [30], state=st)
+    for cls in (("inet4", 1), ("inet6", 1)):
+        for st in (6, 6, 3):
+            add(cls, [], state=st)
+            socks[-1]["inode"] = 0                                 # ownerless: the kernel prints inode 0
         add(("inet6", 1), [], state=st)
     return {"socks": socks, "v6": True,
             "procs": [[p, [[fd, t] for fd, t in sorted(f.items())]] for p, f in sorted(procs.items())]}
@@ -750,7 +766,7 @@ def run_raw(ctx, impl, items, res):
                              im, mo, None, note="malformed input (%s): implementation differs from the Lean model" % how)
 
 
-FAMILIES = ["mixed", "unix_paths", "addresses", "shared", "twins", "mixed", "big"]
+FAMILIES = ["mixed", "unix_paths", "addresses", "shared", "twins", "ownerless", "mixed", "big"]
 
 CORPUS = [
     # L11: UNIX socket bound to a path containing a blank
@@ -768,6 +784,12 @@ CORPUS = [
                 "rip": "00000000000000000000000000000001", "rport": 80, "state": 1,
                 "path": None, "inode": 8, "txq": 0, "rxq": 0, "uid": 0, "refcnt": 2, "flags": 0}],
      "procs": [[1, [[3, {"s": 7}]]]], "v6": True},
+    # seeded C11-1: three TIME_WAIT sockets, all printed with inode 0, next to a held LISTEN socket
+    {"socks": [{"fam": "inet4", "typ": 1, "lip": "7f000001", "lport": 8080, "rip": "00000000", "rport": 0, "state": 10,
+                "path": None, "inode": 3001, "txq": 0, "rxq": 0, "uid": 0, "refcnt": 2, "flags": 0}] +
+              [{"fam": "inet4", "typ": 1, "lip": "7f000001", "lport": 8080, "rip": "7f000001", "rport": 40000 + i, "state": 6,
+                "path": None, "inode": 0, "txq": 0, "rxq": 0, "uid": 0, "refcnt": 2, "flags": 0} for i in range(3)],
+     "procs": [[100, [[3, {"s": 3001}]]]], "v6": True},
 ]
 
 
